@@ -498,7 +498,7 @@ func addClause(c *Contract, text string, line int) error {
 				c.Modifies = append(c.Modifies, &Clause{Text: "*", Line: line})
 				continue
 			}
-			e, err := ParseExpr(strings.ReplaceAll(part, "[*]", "[0]"))
+			e, err := ParseExpr(strings.TrimSuffix(strings.ReplaceAll(part, "[*]", "[0]"), ".*"))
 			if err != nil {
 				return err
 			}
